@@ -29,7 +29,11 @@ RULE = ("one case = (mesh family member, coordinate alphabet, weight assignment,
         "start's component up to the size bound as list and set, whole component) and every weight mode "
         "('one', 'length', dict, sparse Attribute, dense ArrayAttribute), with and without export_path_mesh; "
         "non-trivial = the start reaches at least one other vertex; distinct = different (mesh, coordinates, "
-        "weights, start)")
+        "weights, start); besides, HISTORIES: one targets object (every collection form) and one weights object are handed to "
+        "every call of a history = all start vertices of a component in turn, then the first start again, through "
+        "shortest_path only / shortest_path_to_vertex_set only / all entry points interleaved; every call is judged against the "
+        "targets as built, and after EVERY call (fresh or history) the caller-supplied collections must compare equal to their "
+        "content before the call; distinct history = different (mesh, targets, form, weights mode, schedule)")
 ASSUMPTIONS = [
     "only connected pairs are asked: shortest_path targets lie in the start's component; vertex sets contain at "
     "least one member reachable from the start (sets with some unreachable members are asked and tagged reach=partial)",
@@ -40,7 +44,14 @@ ASSUMPTIONS = [
     "weight assignments are exhaustive over the stated alphabet only on graphs with <= 4 vertices (and {0,1} on 5 "
     "vertices in the thorough tier); larger meshes get three fixed periodic patterns over {0,1,2,5}",
     "the exported path polyline is compared as a set of coordinate segments / vertices with the returned paths",
-    "targets given as numpy integers / arrays and negative weights are outside the statement and not asked",
+    "negative weights are outside the statement and not asked; a bare numpy integer as single target (instead of the documented "
+    "int) and a one-element collection of numpy integers for shortest_path_to_vertex_set are not asked",
+    "'arguments unchanged' compares what a caller can observe: list / tuple / numpy array element-wise in order (+ dtype, shape), "
+    "set / frozenset / dict key view as sets, a weights dict by ==, an Attribute by len, stored keys and the value of every edge "
+    "id, an ArrayAttribute by len and values; ints and one-shot generators (consumed by being read) are not compared; key order "
+    "of a dict is not compared",
+    "a clause failing on a later call of a history is reported as C09.history.* only if the same query with fresh argument "
+    "objects passes that clause (control run on the spot); otherwise it counts as the ordinary failure",
 ]
 BOUNDS = {
     "quick": "every start vertex of: GRAPH(<=4) 75 labelled graphs [lattice: FULL plan = 6 single-target forms, 4 multi-target "
@@ -49,13 +60,19 @@ BOUNDS = {
              "SURF(5) 410 triangle complexes lattice LIGHT; TET(<=5) 27 generic LIGHT; grids 2..4 x 2..4 x {tri,tri2,quad,mixed} "
              "(every single target, every pair as vertex set, border); 92 manifold sub-complexes of the 3x3 tri grid; every "
              "weighting over {0,1,2,5} of every graph on <=3 vertices and over {0,1,5} on 4 vertices (4223 weighted graphs; whole "
-             "component as dict and Attribute, every vertex set of size <=2)",
+             "component as dict and Attribute, every vertex set of size <=2); HISTORIES (one targets object in 8 forms int/list/tuple/"
+             "set/frozenset/dict keys/list of numpy ints/numpy array + one weights object per mesh and mode, starts = whole component "
+             "+ first again, targets = every subset <=2 of the component + the whole component): GRAPH(<=4) 75 lattice [p2p-only in "
+             "one/dict, set-only in length/Attribute, interleaved + border-only in all 5 modes], SURF(<=4) 66, 3 of "
+             "TET(<=5), grids 3x3 tri/quad, 2x4 mixed, 4x4 tri2, every 12th holey 3x3 grid (8) [interleaved + border-only, 2 modes]",
     "thorough": "every start vertex of: GRAPH(<=4) x {lattice,generic} FULL; GRAPH(5) 1024 lattice MID (subsets <=3, 4 modes) + "
                 "generic LIGHT; SURF(<=4) 66 lattice FULL + generic MID; SURF(5) all 2632 tri+quad lattice LIGHT, 410 triangle "
                 "complexes lattice MID + generic LIGHT; 28 six-vertex triangle classes MID; TET(<=5) 27 x {generic,lattice} MID; grids "
                 "2..5 x 2..5 x 4 modes + lifted tri/quad; 3x3 holey grids tri (92) + quad (12); every weighting over {0,1,2,5} of "
                 "every graph on <=4 vertices (15751) and over {0,1} of every graph on 5 vertices (59048: whole component + every "
-                "pair as vertex set)",
+                "pair as vertex set); HISTORIES as in quick with subsets <=3, all three schedules in all 5 modes on GRAPH(<=4) x "
+                "{lattice,generic} and SURF(<=4) 66; subsets <=2, 4 modes on SURF(5) 410 triangle complexes, TET(<=5) 27, grids 2..5 x "
+                "2..5 x 4 modes, 92 holey 3x3 grids",
 }
 
 CALL_CPU_LIMIT = 1.0      # seconds of CPU per single library call (ITIMER_VIRTUAL): a longer call is a hang
@@ -64,11 +81,11 @@ PINNED = {"graph1": 1, "graph2": 2, "graph3": 8, "graph4": 64, "graph5": 1024,
           "surf3": 2, "surf4": 64, "surf5": 2632, "surf5tri": 410, "surf6c": 28, "tet4": 1, "tet5": 26}
 
 # query features, in reporting order; DROP_ORDER = least informative first (see _explain)
-NAMES = ("weights", "weights_type", "ntargets", "targets_form", "start_in_targets", "export", "mesh", "reach")
+NAMES = ("weights", "weights_type", "ntargets", "targets_form", "start_in_targets", "export", "mesh", "reach", "call")
 # values that are the "nothing special" side of a two-valued feature are never part of a class
 DEFAULTS = {(4, "no"), (5, "no"), (7, "all")}
 WTYPE = {"one": "str", "length": "str", "dict": "dict", "attr": "Attribute", "attr_dense": "ArrayAttribute"}
-DROP_ORDER = (7, 6, 3, 1, 4, 5, 2, 0)
+DROP_ORDER = (7, 6, 8, 3, 1, 4, 5, 2, 0)
 
 PATTERNS = {"dict": (1, 0, 2, 5), "attr": (2, 5, 1, 0, 1), "attr_dense": (0, 0, 1)}
 
@@ -113,10 +130,64 @@ PLAN_WNAMED = {"p2p_sub": 1, "vset_sub": 2, "p2p_1": ["int"], "p2p_k": ["set"], 
 PLAN_GRID = {"p2p_sub": 1, "vset_sub": 2, "p2p_1": ["int"], "p2p_k": ["list"], "vset_1": ["set"], "vset_k": ["list"],
              "modes": STD4, "minor": ["length"], "export": ["length"]}
 
+# HISTORIES: one targets object and one weights object serve every call of a history (all start vertices of a component,
+# then the first start again). forms_1 / forms_k: collection forms of one / several targets; vset_skip: forms not handed to
+# shortest_path_to_vertex_set (a one-element collection of numpy integers: the documented type of a single target is int);
+# sub: every target subset of a component up to this size (+ the whole component); schedules: which entry points are called
+# per start ("mixed": all of them in turn on the same objects); export: weight modes whose "mixed" history exports the polyline
+HIST_FORMS_1 = ["int", "list", "tuple", "set", "frozenset", "dict_keys", "npint", "nparr"]
+HIST_FORMS_K = ["list", "tuple", "set", "frozenset", "dict_keys", "npint", "nparr"]
+
+
+def _hplan(sub, p2p, vset, mixed, export):
+    """schedules: schedule -> weight modes in which it is run ("border" = border queries alone, run in the modes of "mixed")"""
+    return {"sub": sub, "forms_1": HIST_FORMS_1, "forms_k": HIST_FORMS_K, "vset_skip_1": ["int", "npint", "nparr"],
+            "schedules": {"p2p": p2p, "set": vset, "mixed": mixed}, "modes": [m for m in ALL5 if m in p2p + vset + mixed],
+            "export": export}
+
+
+PLAN_HIST_FULL = _hplan(3, ALL5, ALL5, ALL5, ["length", "attr_dense"])
+PLAN_HIST_STD = _hplan(2, STD4, STD4, STD4, ["length"])
+PLAN_HIST_Q_GRAPH = _hplan(2, ["one", "dict"], ["length", "attr"], ALL5, ["length", "attr_dense"])
+PLAN_HIST_Q_SURF = _hplan(2, [], [], ["length", "attr"], ["length"])
+PLAN_HIST_Q_BIG = _hplan(2, [], [], ["length", "dict"], ["length"])
+PLAN_HIST_Q_HOLEY = _hplan(2, [], [], ["one", "attr"], [])
+
+
+def _hist_tasks(quick):
+    out = []
+    if quick:
+        for lo, hi in _chunks(75, 3):
+            out.append({"kind": "hist", "of": "graph", "nmax": 4, "lo": lo, "hi": hi, "step": 1, "coords": "lattice", "plan": PLAN_HIST_Q_GRAPH})
+        for lo in range(3):       # SURF(<=4), all 66, dealt over three tasks
+            out.append({"kind": "hist", "of": "surf", "family": "surf<=4", "lo": lo, "hi": 66, "step": 3, "coords": "lattice",
+                        "plan": PLAN_HIST_Q_SURF})
+        out.append({"kind": "hist", "of": "tet", "lo": 0, "hi": 3, "step": 1, "coords": "generic", "plan": PLAN_HIST_Q_BIG})
+        for k, l, mode in [(3, 3, "tri"), (3, 3, "quad"), (2, 4, "mixed"), (4, 4, "tri2")]:
+            out.append({"kind": "hist", "of": "grid", "k": k, "l": l, "mode": mode, "plan": PLAN_HIST_Q_BIG})
+        out.append({"kind": "hist", "of": "holey", "mode": "tri", "lo": 0, "hi": 92, "step": 12, "plan": PLAN_HIST_Q_HOLEY})
+        return out
+    for coords in ("lattice", "generic"):
+        for lo, hi in _chunks(75, 2):
+            out.append({"kind": "hist", "of": "graph", "nmax": 4, "lo": lo, "hi": hi, "step": 1, "coords": coords, "plan": PLAN_HIST_FULL})
+    for lo, hi in _chunks(66, 2):
+        out.append({"kind": "hist", "of": "surf", "family": "surf<=4", "lo": lo, "hi": hi, "step": 1, "coords": "lattice", "plan": PLAN_HIST_FULL})
+    for lo, hi in _chunks(410, 8):
+        out.append({"kind": "hist", "of": "surf", "family": "surf5tri", "lo": lo, "hi": hi, "step": 1, "coords": "lattice", "plan": PLAN_HIST_STD})
+    for lo, hi in _chunks(27, 3):
+        out.append({"kind": "hist", "of": "tet", "lo": lo, "hi": hi, "step": 1, "coords": "generic", "plan": PLAN_HIST_STD})
+    for k in (2, 3, 4, 5):
+        for l in (2, 3, 4, 5):
+            for mode in ("tri", "tri2", "quad", "mixed"):
+                out.append({"kind": "hist", "of": "grid", "k": k, "l": l, "mode": mode, "plan": PLAN_HIST_STD})
+    for lo, hi in _chunks(92, 4):
+        out.append({"kind": "hist", "of": "holey", "mode": "tri", "lo": lo, "hi": hi, "step": 1, "plan": PLAN_HIST_STD})
+    return out
+
 
 def tasks(tier):
     quick = tier == "quick"
-    out = [{"kind": "selftest"}]
+    out = [{"kind": "selftest"}] + _hist_tasks(quick)
     # ---- GRAPH: all labelled graphs on <= 4 vertices (75), full plan, both coordinate alphabets
     for coords in ("lattice", "generic"):
         for lo, hi in _chunks(75, 4):
@@ -327,6 +398,7 @@ class Ctx:
         self.rep = rep
         self.col = Collector()
         self.hangs = 0
+        self.seen = set()       # coverage facts collected per call, turned into flags at the end of the task
         signal.signal(signal.SIGVTALRM, _vt_handler)
 
     def gcall(self, fn, *a, **k):
@@ -486,6 +558,8 @@ def _form_obj(form, T):
         return tuple(T)
     if form == "frozenset":
         return frozenset(T)
+    if form == "dict_keys":
+        return dict.fromkeys(T).keys()
     if form == "list_dup":
         return list(T) + [T[0]]
     if form == "gen":
@@ -507,48 +581,144 @@ def _wrepr(mode, wl):
     return f"<{'Attribute' if mode == 'attr' else 'ArrayAttribute'}(float) with values {[float(w) for w in wl]} by edge id>"
 
 
-def _query(ctx, mc, callee, start, form, T, mode, table, export, reach):
-    """Run one real call and judge it. T = tuple of distinct target vertices (None for border)."""
+_KEYS = type({}.keys())
+SHORT = {"shortest_path": "p2p", "shortest_path_to_vertex_set": "set", "shortest_path_to_border": "border"}
+
+
+def _snap(obj):
+    """Observable content of a caller-supplied target collection (None = nothing to compare: an int, or a one-shot
+    generator, which is consumed by being read). Sequences compare with their order, sets and key views without."""
+    if isinstance(obj, (list, tuple)):
+        return (type(obj).__name__, list(obj))
+    if isinstance(obj, (set, frozenset)):
+        return (type(obj).__name__, frozenset(obj))
+    if isinstance(obj, _KEYS):
+        return ("dict_keys", frozenset(obj))
+    if type(obj).__name__ == "ndarray":
+        return ("ndarray", str(obj.dtype), tuple(obj.shape), obj.tolist())
+    return None
+
+
+def _wsnap(wobj, m):
+    """Observable content of a caller-supplied weights object, read through its public interface only (None for the
+    named modes): dict -> its items; Attribute -> length, stored keys, value of every edge id; ArrayAttribute -> length, values."""
+    if isinstance(wobj, str):
+        return None
+    if isinstance(wobj, dict):
+        return ("dict", dict(wobj))
+    name = type(wobj).__name__
+    if name == "Attribute":
+        return (name, len(wobj), frozenset(wobj), [wobj[e] for e in range(m)])
+    return (name, len(wobj), [float(wobj[e]) for e in range(m)])
+
+
+def _ctor(form, T):
+    T = list(T)
+    return {"int": repr(T[0]), "list": repr(T), "rlist": repr(T[::-1]), "set": f"set({T})", "tuple": repr(tuple(T)),
+            "frozenset": f"frozenset({T})", "dict_keys": f"dict.fromkeys({T}).keys()", "list_dup": repr(T + T[:1]),
+            "gen": f"(t for t in {T})", "npint": f"[numpy.int64(t) for t in {T}]",
+            "nparr": f"numpy.array({T}, dtype=numpy.int64)"}[form]
+
+
+def _query(ctx, mc, callee, start, form, T, mode, table, export, reach, hist=None):
+    """Run one real call and judge it. T = tuple of distinct target vertices (None for border).
+    hist = None: the argument objects of the call are fresh (the weights object is the one of `table`). Otherwise hist is
+    the state of a HISTORY of calls that all receive ONE targets object hist["tobj"] (built once from T) and the one weights
+    object of `table`: every call is judged against T as it was when the object was built; a clause that fails on a later
+    call of a history while the same query with fresh argument objects passes it is reported as C09.history.<fn>.<clause>.
+    Returns the list of (clause, kind) that failed."""
     rep, col = ctx.rep, ctx.col
     if ctx.hangs >= MAX_HANGS_PER_TASK:
         raise Aborted()
     wobj, D, W, exact, wl, base = table
-    Ds = D[start]
+    m = len(mc.E)
+    pos = "fresh" if hist is None else ("later" if hist["log"] else "first")
+    if "wsnap" not in base:
+        base["wsnap"] = _wsnap(wobj, m)
+    tobj = tsnap = None
     if callee == "shortest_path_to_border":
         members = sorted(mc.border)
         feats = (mode if wl is None else "custom", WTYPE[mode], "multi", "border", "yes" if start in mc.border else "no",
-                 "yes" if export else "no", mc.kind, reach)
-        out = ctx.gcall(ctx.spb, mc.mesh, start, wobj, export)
+                 "yes" if export else "no", mc.kind, reach, pos)
         shown = None
+        out = ctx.gcall(ctx.spb, mc.mesh, start, wobj, export)
     else:
         members = list(T)
-        tobj = _form_obj(form, T)
+        tobj = _form_obj(form, T) if hist is None else hist["tobj"]
+        tsnap = _snap(tobj)
         feats = (mode if wl is None else "custom", WTYPE[mode], "single" if len(T) == 1 else "multi",
-                 "list" if form == "rlist" else form, "yes" if start in T else "no", "yes" if export else "no", mc.kind, reach)
+                 "list" if form == "rlist" else form, "yes" if start in T else "no", "yes" if export else "no", mc.kind, reach, pos)
+        shown = repr(tobj) if hist is None else "T"
         fn = ctx.sp if callee == "shortest_path" else ctx.spv
         out = ctx.gcall(fn, mc.mesh, start, tobj, wobj, export)
-        shown = repr(tobj)
+
+    def calltext():
+        args = f"mesh, {start}" + (f", {shown}" if shown is not None else "")
+        return f"{callee}({args}, weights={_wrepr(mode, wl) if hist is None or wl is None else 'WEIGHTS'}, export_path_mesh={export})"
+
     col.ran(callee, feats)
     rep.transitions += 1
     rep.traces += 1
-    size_key = (mc.n, len(mc.E), len(members), 1 if export else 0, 0 if wl is None else sum(wl))
+    earlier = [] if hist is None else list(hist["log"])
+    size_key = (mc.n, len(mc.E), len(members), 1 if export else 0, 0 if wl is None else sum(wl), len(earlier))
 
     def detail(extra):
         def mk():
             d = mc.describe()
-            args = f"mesh, {start}" + (f", {shown}" if shown is not None else "")
-            d["call"] = f"{callee}({args}, weights={_wrepr(mode, wl)}, export_path_mesh={export})"
+            d["call"] = calltext()
+            if hist is not None:
+                d["objects_used_by_every_call_of_the_history"] = {"T": hist["ctor"], "WEIGHTS": _wrepr(mode, wl)}
+                d["earlier_calls_of_the_history"] = earlier
             if mc.edge_of_id is not None and wl is not None:
                 d["mesh_edges_by_id"] = mc.edge_of_id
             d.update(extra)
             return d
         return mk
 
-    pre = {"shortest_path": "C09.p2p.", "shortest_path_to_vertex_set": "C09.set.", "shortest_path_to_border": "C09.border."}[callee]
+    # ---- clause "arguments unchanged": every caller-supplied collection still compares equal to its content before the call
+    if tsnap is not None:
+        rep.evaluations += 1
+        ctx.seen.add("args_compared:targets:" + tsnap[0])
+        after = _snap(tobj)
+        if after != tsnap:
+            col.fail("C09.args.targets_unchanged", callee, "side_effect:targets_modified", feats, size_key,
+                     detail({"targets_before_the_call": tsnap[1:], "targets_after_the_call": after[1:]}))
+    if base["wsnap"] is not None:
+        rep.evaluations += 1
+        ctx.seen.add("args_compared:weights:" + base["wsnap"][0])
+        after = _wsnap(wobj, m)
+        if after != base["wsnap"]:
+            col.fail("C09.args.weights_unchanged", callee, "side_effect:weights_modified", feats, size_key,
+                     detail({"weights_before_the_call": base["wsnap"][1:], "weights_after_the_call": after[1:]}))
+            base["wsnap"] = after        # a later call is blamed only for what it changes itself
+    if hist is not None:
+        hist["log"].append(calltext())
 
-    def fail(clause, kind, info):
-        col.fail(pre + clause, callee, kind, feats, size_key, detail(info))
+    found = []
+    _judge_answer(ctx, mc, callee, out, start, T, members, table, export, feats,
+                  lambda clause, kind, info: found.append((clause, kind, info)))
+    pre = "C09." + SHORT[callee] + "."
+    if pos == "later" and found:
+        # control: the same query with fresh argument objects (fresh targets collection, fresh weights object)
+        ftable = table if wl is None else mc.custom_table(ctx, mode, wl)
+        rep.count("history_controls_run")
+        same = set(_query(ctx, mc, callee, start, form, T, mode, ftable, export, reach))
+        for clause, kind, info in found:
+            if (clause, kind) in same:
+                rep.count("history_failures_identical_to_failure_of_fresh_call")
+            else:
+                col.fail("C09.history." + SHORT[callee] + "." + clause, callee, kind, feats, size_key, detail(info))
+    else:
+        for clause, kind, info in found:
+            col.fail(pre + clause, callee, kind, feats, size_key, detail(info))
+    return [(clause, kind) for clause, kind, _ in found]
 
+
+def _judge_answer(ctx, mc, callee, out, start, T, members, table, export, feats, fail):
+    """Clause-by-clause verdict on the outcome of one call; every failed clause is handed to fail(clause, kind, info)."""
+    rep, col = ctx.rep, ctx.col
+    wobj, D, W, exact, wl, base = table
+    Ds = D[start]
     if not out.ok:
         rep.outcome(callee, "raises:" + out.exc)
         rep.evaluations += 1
@@ -610,7 +780,6 @@ def _query(ctx, mc, callee, start, form, T, mode, table, export, reach):
     else:
         dmin = min(Ds[t] for t in members)
         p0 = _as_path(path)
-        sub = "member"
         rep.evaluations += 2
         if callee == "shortest_path_to_vertex_set":
             end = ind
@@ -741,6 +910,77 @@ def sweep_mesh(ctx, mc, plan, customs):
                                    "all" if nreach == len(mc.border) else "partial")
 
 
+def _hist_targets(mc, C, sub):
+    """Target tuples asked in the histories of component C (sorted vertex list): every subset up to size `sub` and the whole
+    component on small components; on larger ones two single vertices, a far pair, every third vertex, the border vertices
+    of the component and the whole component."""
+    if len(C) <= 5:
+        out = [T for k in range(1, sub + 1) for T in itertools.combinations(C, k)]
+        if len(C) > sub:
+            out.append(tuple(C))
+    else:
+        out = [(C[0],), (C[-1],), (C[0], C[-1]), tuple(C[::3]), tuple(v for v in C if v in mc.border), tuple(C)]
+    seen, res = set(), []
+    for T in out:
+        if T and T not in seen:
+            seen.add(T)
+            res.append(T)
+    return res
+
+
+def sweep_history(ctx, mc, plan, customs):
+    """Histories of calls on ONE targets object and ONE weights object (see PLAN_HIST)."""
+    rep = ctx.rep
+    tables = [(m, mc.named_table(m)) for m in ("one", "length") if m in plan["modes"]]
+    for mode, wl in customs:
+        t = mc.custom_table(ctx, mode, wl)
+        if t is None:
+            rep.count("skipped_custom_weights:mesh.edges_differs_from_element_edges")
+            continue
+        tables.append((mode, t))
+    rep.count("hist_meshes:" + mc.kind)
+    comps = sorted({tuple(c) for c in mc.comp})
+    for mode, table in tables:          # the weights object of `table` serves every history of this mesh
+        rep.states += len(comps)
+        for C in comps:
+            starts = list(C) + [C[0]]
+            bord = [v for v in C if v in mc.border] if mc.kind == "surface" else []
+            breach = "all" if len(bord) == len(mc.border) else "partial"
+            if bord and mode in plan["schedules"]["mixed"]:
+                hist = {"tobj": None, "log": [], "ctor": "(no targets)"}
+                for s in starts:
+                    _query(ctx, mc, "shortest_path_to_border", s, "border", None, mode, table, False, breach, hist)
+                rep.count("histories")
+                ctx.seen.add("history:schedule:border")
+            for T in _hist_targets(mc, list(C), plan["sub"]):
+                single = len(T) == 1
+                for form in plan["forms_1" if single else "forms_k"]:
+                    vset_ok = not (single and form in plan["vset_skip_1"])
+                    for sched in ("p2p", "set", "mixed"):
+                        if mode not in plan["schedules"][sched] or (sched == "set" and not vset_ok):
+                            continue
+                        hist = {"tobj": _form_obj(form, T), "log": [], "ctor": _ctor(form, T)}
+                        ex = sched == "mixed" and mode in plan["export"]
+                        for s in starts:
+                            if sched != "set":
+                                _query(ctx, mc, "shortest_path", s, form, T, mode, table, ex, "all", hist)
+                            if sched != "p2p" and vset_ok:
+                                _query(ctx, mc, "shortest_path_to_vertex_set", s, form, T, mode, table, ex, "all", hist)
+                            if sched == "mixed" and bord:
+                                _query(ctx, mc, "shortest_path_to_border", s, "border", None, mode, table, ex, breach, hist)
+                        rep.count("histories")
+                        rep.count("history_calls", len(hist["log"]))
+                        if len(C) > 1:
+                            rep.case(("hist", mc.kind, mc.pts, mc.elems, T, form, mode, sched))
+                        ctx.seen.add("history:schedule:" + sched)
+                        ctx.seen.add("history:targets_form:" + form)
+                        ctx.seen.add("history:weights:" + WTYPE[mode])
+                        if len(T) > 1:
+                            ctx.seen.add("history:several_targets")
+                        if len(C) > 2:
+                            ctx.seen.add("history:three_or_more_starts")
+
+
 def _pattern_customs(mc, plan):
     m = len(mc.E)
     modes = [x for x in plan["modes"] if x not in ("one", "length")]
@@ -819,6 +1059,35 @@ def _run_holey(task, ctx):
         if len(F.border_loops(faces)) > 1:
             ctx.rep.flag("surface:several_border_loops")
         sweep_mesh(ctx, mc, task["plan"], _pattern_customs(mc, task["plan"]))
+
+
+def _run_hist(task, ctx):
+    """The meshes of the slice (same families as the sweeps), each put through sweep_history."""
+    of = task["of"]
+    meshes = []
+    if of == "graph":
+        for n, g in _all_graphs(task["nmax"])[task["lo"]:task["hi"]:task["step"]]:
+            meshes.append(("polyline", _coords(task["coords"], n), g, f"GRAPH({n}):{task['coords']}"))
+    elif of == "surf":
+        for n, faces in _surf_family(task["family"])[task["lo"]:task["hi"]:task["step"]]:
+            meshes.append(("surface", _coords(task["coords"], n), faces, f"{task['family']}:{task['coords']}"))
+    elif of == "tet":
+        fam = [(4, c) for c in F.tet_enum(4)] + [(5, c) for c in F.tet_enum(5)]
+        for n, cells in fam[task["lo"]:task["hi"]:task["step"]]:
+            pts = _coords(task["coords"], n)
+            if any(F.tet_volume6(*(pts[v] for v in c)) == 0 for c in cells):
+                ctx.rep.count("filtered_degenerate_cell")
+                continue
+            meshes.append(("volume", pts, F.orient_cells_positive(cells, pts), f"TET({n}):{task['coords']}"))
+    elif of == "grid":
+        pts, faces = F.grid(task["k"], task["l"], task["mode"], None)
+        meshes.append(("surface", pts, faces, f"grid {task['k']}x{task['l']} {task['mode']}"))
+    else:
+        for mask, pts, faces in list(F.holey_grids(3, 3, task["mode"]))[task["lo"]:task["hi"]:task["step"]]:
+            meshes.append(("surface", pts, faces, f"holey 3x3 {task['mode']} mask={mask}"))
+    for kind, pts, elems, tag in meshes:
+        mc = MeshCase(ctx, kind, pts, elems, tag)
+        sweep_history(ctx, mc, task["plan"], _pattern_customs(mc, task["plan"]))
 
 
 def _run_wgraphs(task, ctx):
@@ -903,15 +1172,15 @@ def _run_selftest(task, ctx):
                                            f"brute force {best}, Floyd-Warshall {D[s][t]}")
                     ctx.rep.count("oracle_selftest_pairs")
     # the failure-class explanation: a feature implied by the others is dropped, defaults are never reported
-    ex = {("one", "str", "single", "int", "no", "no", "polyline", "all"), ("one", "str", "multi", "list", "yes", "no", "polyline", "all"),
-          ("length", "str", "single", "int", "no", "no", "polyline", "all"), ("custom", "dict", "multi", "list", "yes", "no", "polyline", "all")}
+    ex = {("one", "str", "single", "int", "no", "no", "polyline", "all", "fresh"), ("one", "str", "multi", "list", "yes", "no", "polyline", "all", "fresh"),
+          ("length", "str", "single", "int", "no", "no", "polyline", "all", "fresh"), ("custom", "dict", "multi", "list", "yes", "no", "polyline", "all", "fresh")}
     got = _explain({t for t in ex if t[0] == "one"}, ex)
     if got != "weights=one":
         raise RuntimeError("class explanation self-test failed: " + got)
 
 
 RUNNERS = {"selftest": _run_selftest, "graph": _run_graphs, "surf": _run_surfs, "tet": _run_tets, "grid": _run_grid, "holey": _run_holey,
-           "wgraph": _run_wgraphs}
+           "wgraph": _run_wgraphs, "hist": _run_hist}
 
 
 def run_task(task, rep: Report):
@@ -923,6 +1192,8 @@ def run_task(task, rep: Report):
     finally:
         signal.setitimer(signal.ITIMER_VIRTUAL, 0)
     ctx.col.flush(rep)
+    for f in sorted(ctx.seen):
+        rep.flag(f)
 
 
 # ------------------------------------------------------------------------------------------------ guards
@@ -977,6 +1248,21 @@ def finish(tier, rep: Report):
     for k in ("meshes:polyline", "meshes:surface", "meshes:volume"):
         if not c.get(k, 0):
             fails.append("no mesh of kind " + k)
+    # ---- histories on one targets object / one weights object, and the 'arguments unchanged' clause
+    want_h = ({"hist_meshes:polyline": 75, "hist_meshes:surface": 66 + 4 + 8, "hist_meshes:volume": 3} if quick else
+              {"hist_meshes:polyline": 150, "hist_meshes:surface": 66 + 410 + 64 + 92, "hist_meshes:volume": 27})
+    for k, v in want_h.items():
+        if c.get(k, 0) != v:
+            fails.append(f"{k}: {c.get(k, 0)} meshes put through the histories, expected {v}")
+    if c.get("history_calls", 0) < 3 * c.get("histories", 0) or not c.get("histories", 0):
+        fails.append("histories: fewer than three calls per history on average")
+    want_f = (["history:schedule:" + x for x in ("p2p", "set", "mixed", "border")] + ["history:targets_form:" + x for x in HIST_FORMS_1]
+              + ["history:weights:" + x for x in sorted(set(WTYPE.values()))] + ["history:several_targets", "history:three_or_more_starts"]
+              + ["args_compared:targets:" + x for x in ("list", "tuple", "set", "frozenset", "dict_keys", "ndarray")]
+              + ["args_compared:weights:" + x for x in ("dict", "Attribute", "ArrayAttribute")])
+    for f in want_f:
+        if f not in rep.flags:
+            fails.append("coverage flag missing: " + f)
     return fails
 
 
